@@ -328,6 +328,9 @@ pub fn check(a: &CheckArgs) -> i32 {
                     }
                     let seed_i = run_seed(a.seed, &a.property, i);
                     let case = gen_case(&a.property, seed_i, a.tier);
+                    // remember which run is in flight: if the process dies (stack overflow, abort)
+                    // the wrapper script finds the culprit here
+                    let _ = std::fs::write(base.join(format!("in-flight-{tid}")), format!("{i}"));
                     let r = evaluate(&case, base, &name);
                     done_runs.fetch_add(1, Ordering::SeqCst);
                     let want_sample = i < 3;
